@@ -13,7 +13,7 @@ Separate Extraction
   WinCmdline.assemble_cmdline MsParse.parse_args MsParse.parse_progname
   Path.split_path Path.prealloc_capacity Path.candidates Path.search_path_of Path.assemble_exe Path.longest_assembled Path.lookup_and_exec
   ExecArgs.prepare ExecArgs.conforms Builder.program Builder.cmd Builder.shell Builder.apply_op
-  JobCtl.xserve JobCtl.xinit Pipeline.build Pipeline.ppopen Pipeline.setup_comm Pipeline.pjoin Pipeline.pcapture Pipeline.leaves DropOrder.acts DropOrder.held_at_waits DropOrder.all_held
+  JobCtl.xserve JobCtl.xinterrupt JobCtl.xinit Pipeline.build Pipeline.ppopen Pipeline.setup_comm Pipeline.pjoin Pipeline.pcapture Pipeline.leaves DropOrder.acts DropOrder.held_at_waits DropOrder.all_held
   WinComm.winit WinComm.wstep WinSim.run_script
   Env.format_env Env.format_env_block Status.decode_exit_status Status.encode4 Status.decode4
   Comm.start Comm.step Comm.output CommK.init_world CommSim.serve CommSim.call_eqb
